@@ -277,6 +277,38 @@ func (w *treeWorld) unstall() {
 	}
 }
 
+// sip: a slow consumer — a stalled plain subscriber reads a few of its events and stops again
+func (w *treeWorld) sip() {
+	var cs []*tnode
+	for _, n := range w.nodes {
+		if n.stalled && n.kind == "sub" && !n.closed {
+			cs = append(cs, n)
+		}
+	}
+	if len(cs) == 0 {
+		return
+	}
+	n := kv.Pick(w.r, cs)
+	var parts []string
+	for k := 1 + w.r.Intn(kcache.EventBufsiz*2/5+1); k > 0; k-- {
+		select {
+		case e, ok := <-n.events:
+			if !ok {
+				k = 0
+				break
+			}
+			parts = append(parts, kv.L(string(e.Type()), kv.Describe(e.Resource()).Sx()))
+		default:
+			k = 0
+		}
+	}
+	if len(parts) == 0 {
+		return
+	}
+	w.tr.line(kv.L("sip", fmt.Sprint(n.id), kv.L(parts...)))
+	w.tr.stats["act:sip"]++
+}
+
 // flood: up to EventBufsiz/4 server events without waiting in between
 func (w *treeWorld) flood() {
 	for j := inflight(10 + w.r.Intn(15)); j > 0; j-- {
@@ -686,6 +718,9 @@ func runTreeScenario(t *testing.T, tr *tracer, idx int, seed uint64, mode string
 				if r.Chance(1, 6) {
 					w.step(w.refilter)
 				}
+				if r.Chance(1, 4) {
+					w.step(w.sip)
+				}
 			}
 			if r.Chance(1, 2) {
 				w.step(w.closeNode)
@@ -705,6 +740,8 @@ func runTreeScenario(t *testing.T, tr *tracer, idx int, seed uint64, mode string
 			if mode == "stall" && r.Chance(1, 2) {
 				if r.Chance(1, 8) {
 					w.step(w.unstall)
+				} else if r.Chance(1, 6) {
+					w.step(w.sip)
 				} else {
 					w.step(w.flood)
 				}
